@@ -13,6 +13,7 @@ import "github.com/q191201771/lal/pkg/base"
 type RtpUnpackerRaw struct {
 	payloadType base.AvPacketPt
 	clockRate   int
+	clock       rtpClock
 	onAvPacket  OnAvPacket
 }
 
@@ -20,6 +21,7 @@ func NewRtpUnpackerRaw(payloadType base.AvPacketPt, clockRate int, onAvPacket On
 	return &RtpUnpackerRaw{
 		payloadType: payloadType,
 		clockRate:   clockRate,
+		clock:       rtpClock{clockRate: clockRate},
 		onAvPacket:  onAvPacket,
 	}
 }
@@ -38,7 +40,7 @@ func (unpacker *RtpUnpackerRaw) TryUnpackOne(list *RtpPacketList) (unpackedFlag 
 	b := p.Packet.Body()
 	var outPkt base.AvPacket
 	outPkt.PayloadType = unpacker.payloadType
-	outPkt.Timestamp = rtpTimestamp2Ms(p.Packet.Header.Timestamp, unpacker.clockRate)
+	outPkt.Timestamp = unpacker.clock.ms(p.Packet.Header.Timestamp)
 	outPkt.Payload = b
 	unpacker.onAvPacket(outPkt)
 
